@@ -2,7 +2,7 @@
 import ast
 from typing import Iterable, List, Optional, Set, Dict
 
-from ..loader import norm_stmt, AnalysisError, FuncInfo
+from ..loader import norm_stmt, AnalysisError, FuncInfo, walk_own
 from ..report import Report
 
 
@@ -431,3 +431,254 @@ def optional_number_tests_rule(ctx, rep: Report, clause: str, modules, floor: in
     if floor:
         rep.floor('KIND', 'optional numeric parameters', n, floor)
     return n
+
+
+
+def terminus_owner_rule(ctx, rep, clause, module='peptacular.proforma.proforma_parser'):
+    """SIB-owner: where the C-terminal modifications of an annotation X are dropped because a stretch ends before the
+    last residue, the length in that test is the length of X -- not of some other annotation in scope.  (`stop <
+    len(Y.sequence)` deciding about X.cterm_mods is right only if X and Y happen to have the same length.)"""
+    import ast as _ast
+    from ..canon import params_of
+    n = 0
+    for f in ctx.program.all_functions():
+        if not f.fq.startswith(module + ':'):
+            continue
+        ps = set(params_of(f.node))
+        defs = {}
+        for x in walk_own(f.node):
+            if isinstance(x, _ast.Assign):
+                for t in x.targets:
+                    if isinstance(t, _ast.Name):
+                        defs.setdefault(t.id, []).append(x.value)
+                    elif isinstance(t, _ast.Tuple) and isinstance(x.value, _ast.Tuple) and len(t.elts) == len(x.value.elts):
+                        for a, b in zip(t.elts, x.value.elts):
+                            if isinstance(a, _ast.Name):
+                                defs.setdefault(a.id, []).append(b)
+
+        def roots(e):
+            out, seen, work = set(), set(), [e]
+            while work:
+                cur = work.pop()
+                for y in _ast.walk(cur):
+                    if isinstance(y, _ast.Name):
+                        if y.id in ps:
+                            out.add(y.id)
+                        elif y.id in defs and y.id not in seen:
+                            seen.add(y.id)
+                            work += [v for v in defs[y.id] if not (isinstance(v, _ast.Constant) and v.value is None)]
+            return out
+
+        for x in walk_own(f.node):
+            if not isinstance(x, _ast.If):
+                continue
+            lens = [y for y in _ast.walk(x.test) if isinstance(y, _ast.Call) and isinstance(y.func, _ast.Name) and
+                    y.func.id == 'len' and y.args]
+            # a length hoisted into a local: `n = len(self.sequence)` ... `if stop < n`
+            for y in _ast.walk(x.test):
+                if isinstance(y, _ast.Name) and y.id in defs and len(defs[y.id]) == 1 and \
+                        isinstance(defs[y.id][0], _ast.Call) and isinstance(defs[y.id][0].func, _ast.Name) and \
+                        defs[y.id][0].func.id == 'len' and defs[y.id][0].args:
+                    lens.append(defs[y.id][0])
+            if not lens:
+                continue
+            for st in x.body:
+                if not (isinstance(st, _ast.Assign) and isinstance(st.value, _ast.Constant) and st.value.value is None):
+                    continue
+                t = st.targets[0]
+                if 'cterm' not in norm_stmt(t).lower().replace('_', '').replace('cterminal', 'cterm'):
+                    continue
+                owner = roots(t.value if isinstance(t, _ast.Attribute) else t)
+                lroots = set()
+                for l_ in lens:
+                    lroots |= roots(l_.args[0])
+                if not owner or not lroots:
+                    continue
+                n += 1
+                check(rep, 'SIB-owner', f.fq, f'`{norm_stmt(st)}`: the C-terminus is that of the annotation whose '
+                      f'modifications are dropped', bool(owner & lroots),
+                      f'the test measures {sorted(lroots)}, the modifications belong to {sorted(owner)}',
+                      f'`{norm_stmt(x.test)}` measures the length of {sorted(lroots)} but decides about the C-terminal '
+                      f'modifications of {sorted(owner)}: a stretch of the longer annotation that ends before its last '
+                      f'residue keeps (or one that reaches it loses) the C-terminal modification',
+                      f.loc(st), clause)
+    rep.floor('SIB-owner', 'C-terminal drops guarded by a length test', n, 1)
+
+
+
+_FAST_PATH_WITNESS = """
+def count(self):
+    if not self.has_internal_mods() and not self.has_intervals():
+        return Counter(self.sequence)
+    return Counter([a.serialize() for a in self.split()])
+"""
+
+
+def _fast_paths(fnode, kinds):
+    """(return node, kinds with which the bare-residue return is taken) for every decided unmodified fast path"""
+    import ast as _ast
+    from ..guards import GuardEval, UNK, dominating_tests
+    rets = [x for x in walk_own(fnode) if isinstance(x, _ast.Return) and x.value is not None]
+    if len(rets) < 2:
+        return
+
+    def reads(e):
+        out = {}
+        for y in _ast.walk(e):
+            if isinstance(y, _ast.Attribute) and isinstance(y.value, _ast.Name):
+                out.setdefault(y.value.id, set()).add(y.attr)
+        return out
+    general = {}
+    for r in rets:
+        for root, attrs in reads(r.value).items():
+            if attrs & {'slice', 'split', 'serialize'}:
+                general.setdefault(root, []).append(r)
+    for r in rets:
+        rd = reads(r.value)
+        for root, gens in general.items():
+            if r in gens or not rd.get(root) or not rd[root] <= {'sequence', '_sequence'}:
+                continue
+            tests = [(t, pol) for t, pol in dominating_tests(fnode, r)
+                     if any(isinstance(y, _ast.Call) and isinstance(y.func, _ast.Attribute) and
+                            y.func.attr.startswith('has_') and isinstance(y.func.value, _ast.Name) and
+                            y.func.value.id == root for y in _ast.walk(t))]
+            if not tests:
+                continue
+            taken_with, undecided = [], False
+            for k in kinds:
+                env = {f'{root}.{q}()': (q == k) for q in kinds}
+                env[f'{root}.has_mods()'] = True
+                ok_all = True
+                for t, pol in tests:
+                    v = GuardEval(env).eval(t)
+                    if v is UNK:
+                        undecided, ok_all = True, False
+                        break
+                    if bool(v) != pol:
+                        ok_all = False
+                        break
+                if ok_all:
+                    taken_with.append(k[len('has_'):])
+            if not undecided:
+                yield r, taken_with
+
+
+def unmodified_fast_path_rule(ctx, rep, clause, modules):
+    """SIB-guard (fast path): a return that hands out the bare residues of an annotation X (only `X.sequence` is read)
+    next to a general return that goes through X.slice() / X.split() / X.serialize() is taken only when X carries no
+    modification of ANY kind.  The guard is evaluated on the ten single-kind annotations (has_<kind>() true for one
+    kind only, has_mods() true): it must be false on each.  The expected count may be zero, so a built-in witness is
+    read on every run."""
+    import ast as _ast
+    PFA_ = 'peptacular.proforma.proforma_parser:ProFormaAnnotation'
+    hm = ctx.program.cls(PFA_).methods['has_mods']
+    kinds = sorted({y.func.attr for y in _ast.walk(hm.node) if isinstance(y, _ast.Call) and
+                    isinstance(y.func, _ast.Attribute) and y.func.attr.startswith('has_')})
+    if len(kinds) < 10:
+        raise AnalysisError(f'has_mods asks {len(kinds)} has_<kind>() questions, 10 expected (form not read)')
+    w = [tw for _, tw in _fast_paths(_ast.parse(_FAST_PATH_WITNESS).body[0], kinds)]
+    if len(w) != 1 or 'nterm_mods' not in w[0] or 'internal_mods' in w[0]:
+        raise AnalysisError('fast-path rule: the built-in witness is no longer read as expected')
+    n = 0
+    for f in ctx.program.all_functions():
+        if not any(f.fq.startswith(m + ':') for m in modules):
+            continue
+        for r, taken_with in _fast_paths(f.node, kinds):
+            n += 1
+            check(rep, 'SIB-guard', f.fq, f'the unmodified fast path `{norm_stmt(r)[:60]}` is taken only without any '
+                  f'modification', not taken_with, 'guard false for each of the ten kinds',
+                  f'the fast path returns the bare residues although the annotation carries {taken_with}: the general '
+                  f'path (slice/split/serialize) would have shown them', f.loc(r), clause)
+    rep.note(f'unmodified fast paths read: {n} (built-in witness recognised)')
+
+
+_SHARED_ROW_WITNESS = """
+def cover(labels, n, hits):
+    cov = dict.fromkeys(labels, [0] * n)
+    for label, i in hits:
+        row = cov[label]
+        row[i] += 1
+    return cov
+"""
+
+
+def _mutable_display(e) -> bool:
+    import ast as _ast
+    if isinstance(e, (_ast.List, _ast.Dict, _ast.Set, _ast.ListComp, _ast.DictComp, _ast.SetComp)):
+        return True
+    if isinstance(e, _ast.BinOp) and isinstance(e.op, _ast.Mult):
+        return _mutable_display(e.left) or _mutable_display(e.right)
+    if isinstance(e, _ast.Call) and isinstance(e.func, _ast.Name) and e.func.id in ('list', 'dict', 'set', 'Counter',
+                                                                                   'defaultdict', 'bytearray'):
+        return True
+    return False
+
+
+def _shared_rows(fnode):
+    """(creation node, mutation node): a container whose elements are ONE shared mutable object -- dict.fromkeys(keys,
+    <mutable>) or [<mutable>] * n -- and an element of it that is written in place later in the same function"""
+    import ast as _ast
+    made = {}
+    for x in walk_own(fnode):
+        if isinstance(x, _ast.Assign) and len(x.targets) == 1 and isinstance(x.targets[0], _ast.Name):
+            v = x.value
+            shared = False
+            if isinstance(v, _ast.Call) and isinstance(v.func, _ast.Attribute) and v.func.attr == 'fromkeys' and \
+                    len(v.args) == 2 and _mutable_display(v.args[1]):
+                shared = True
+            if isinstance(v, _ast.BinOp) and isinstance(v.op, _ast.Mult):
+                for side in (v.left, v.right):
+                    if isinstance(side, _ast.List) and len(side.elts) == 1 and _mutable_display(side.elts[0]):
+                        shared = True
+            if shared:
+                made[x.targets[0].id] = x
+    if not made:
+        return
+    rows = {}      # alias of one element -> container
+    for x in walk_own(fnode):
+        if isinstance(x, _ast.Assign) and len(x.targets) == 1 and isinstance(x.targets[0], _ast.Name) and \
+                isinstance(x.value, _ast.Subscript) and isinstance(x.value.value, _ast.Name) and x.value.value.id in made:
+            rows[x.targets[0].id] = x.value.value.id
+        if isinstance(x, _ast.For) and isinstance(x.iter, _ast.Call) and isinstance(x.iter.func, _ast.Attribute) and \
+                x.iter.func.attr == 'values' and isinstance(x.iter.func.value, _ast.Name) and \
+                x.iter.func.value.id in made and isinstance(x.target, _ast.Name):
+            rows[x.target.id] = x.iter.func.value.id
+
+    def element_of(e):
+        if isinstance(e, _ast.Name) and e.id in rows:
+            return rows[e.id]
+        if isinstance(e, _ast.Subscript) and isinstance(e.value, _ast.Name) and e.value.id in made:
+            return e.value.id
+        return None
+    for x in walk_own(fnode):
+        tgt = None
+        if isinstance(x, _ast.AugAssign) and isinstance(x.target, _ast.Subscript):
+            tgt = x.target.value
+        elif isinstance(x, _ast.Assign) and isinstance(x.targets[0], _ast.Subscript):
+            tgt = x.targets[0].value
+        elif isinstance(x, _ast.Call) and isinstance(x.func, _ast.Attribute) and x.func.attr in (
+                'append', 'extend', 'add', 'update', 'insert', 'pop', 'remove', 'clear', 'setdefault', 'sort'):
+            tgt = x.func.value
+        if tgt is not None:
+            c = element_of(tgt)
+            if c is not None:
+                yield made[c], x
+
+
+def shared_rows_rule(ctx, rep, clause, modules):
+    """EFF-shared-row: the rows of a table that are written in place are separate objects.  `dict.fromkeys(keys, [0] *
+    n)` and `[[0] * n] * m` put ONE list under every key / index, so a count added to one row shows up in all."""
+    import ast as _ast
+    if not list(_shared_rows(_ast.parse(_SHARED_ROW_WITNESS).body[0])):
+        raise AnalysisError('shared-row rule: the built-in witness is no longer recognised')
+    n = 0
+    for f in ctx.program.all_functions():
+        if not any(f.fq.startswith(m + ':') for m in modules):
+            continue
+        n += 1
+        hits = list(_shared_rows(f.node))
+        check(rep, 'EFF-shared-row', f.fq, 'rows written in place are separate objects', not hits, 'no shared row',
+              (f'`{norm_stmt(hits[0][0])[:80]}` stores one object under every key and `{norm_stmt(hits[0][1])[:50]}` '
+               f'writes into it: every row receives the counts of all rows') if hits else '',
+              f.loc(hits[0][0]) if hits else f.loc(), clause)
+    rep.floor('EFF-shared-row', 'functions scanned', n, 5)
